@@ -70,7 +70,7 @@ macro_rules! u_acc_first { ($name:ident, $A:ty, $B:ty, $mka:expr) => { gproof! {
     let (d0, c0) = (data(&a), cw(&a));
     let u: ArcUnion<$A, $B> = ArcUnion::from_first(a);
     match u.borrow() {
-        ArcUnionBorrow::First(x) => { assert!(vrt::addr(x.0.as_ptr() as *const $A) == d0); }
+        ArcUnionBorrow::First(x) => { assert!(vrt::addr(vrt::bptr(&x)) == d0); }
         ArcUnionBorrow::Second(_) => { assert!(false, "first reported as second"); }
     }
     assert!(u.as_first().is_some() && u.as_second().is_none());
@@ -83,7 +83,7 @@ macro_rules! u_acc_second { ($name:ident, $A:ty, $B:ty, $mkb:expr) => { gproof! 
     let (d0, c0) = (data(&b), cw(&b));
     let u: ArcUnion<$A, $B> = ArcUnion::from_second(b);
     match u.borrow() {
-        ArcUnionBorrow::Second(x) => { assert!(vrt::addr(x.0.as_ptr() as *const $B) == d0); }
+        ArcUnionBorrow::Second(x) => { assert!(vrt::addr(vrt::bptr(&x)) == d0); }
         ArcUnionBorrow::First(_) => { assert!(false, "second reported as first"); }
     }
     assert!(u.as_second().is_some() && u.as_first().is_none());
